@@ -91,6 +91,14 @@ CLAIMED = {
          "instantiated on the QR-abstracted variants of the real programs. Initialisation exactness, fourth-order accuracy, finiteness, ca.qr "
          "meeting its contract: numeric search only (named in evidence). 1 known finding (-0.0 on rejection).",
          "DESIGN.md §2 C11", TECH_T),
+ "C12": ("proof", "PARTIAL. Lean 4 theorems over the regenerated simulator / estimator programs for the step-level facts the closed loop rests on: "
+         "noise-free accelerometer = R(r)^T(0,0,-g) with magnitude g and magnetometer = R(r)^T(reading at identity) with attitude-independent "
+         "magnitude for EVERY MRP; gyro = omega + bias; truth propagation keeps |r| <= 1; an accepted magnetometer / accelerometer correction "
+         "writes ALL THREE gyro-bias components with the gain rule b+ = b + K r (QR-abstracted variants). The trajectory-level convergence claim "
+         "is not a theorem (stability of a time-varying EKF in doubles across SimPy processes): the check runs the real launch_sim with noise off "
+         "over sampled initial attitudes, biases, inclinations, with/without initialisation (thresholds 0.05 rad, bias error <= max(0.01, half the "
+         "initial error)) and reports a failing history if one exists.",
+         "DESIGN.md §2 C12", TECH_T + "; closed-loop part: falsification sweep over real launch_sim histories (support, not proof)"),
 }
 checks = []
 for pid, (cat, text, ref, tech) in CLAIMED.items():
